@@ -39,28 +39,38 @@ Theorem C03_script_readback_noterm : forall f l rest start,
 Proof. exact script_readback_noterm. Qed.
 
 (* (3) no silent change: in a format all of whose header fields are checked, an instruction (whose
-       fields are in their Rust types and which sets nothing the format has no field for) is written
-       without a diagnostic exactly when it fits *)
+       fields are in their Rust types, which sets nothing the format has no field for and leaves a
+       field that the format overwrites with a literal at that literal) is written without a diagnostic
+       exactly when it fits *)
 Theorem C03_no_silent_change : forall f i,
   fmt_ok f = true -> all_checked f = true ->
-  wf_instr f i = true -> unstored_default f i = true -> alen i <= ISIZE_MAX ->
+  wf_instr f i = true -> unstored_default f i = true -> forced_default f i = true -> alen i <= ISIZE_MAX ->
   (is_ok (write_instr f i) = true <-> fitsb f i = true).
 Proof. exact no_silent_change. Qed.
 
-(* (4) the generated tables: every one is a well-formed table, and for every one either (3) applies or
-       a concrete instruction refutes it (it is written without a diagnostic and does not fit) *)
+(* (4) the generated tables: every one is a well-formed table and every one is all-checked, so (1)-(3)
+       hold for the ten instruction formats of the current source without a side condition on the table *)
 Theorem C03_generated_tables_ok : forallb fmt_ok gen_formats = true.
 Proof. vm_compute. reflexivity. Qed.
 
-Theorem C03_generated_status : forall f, In f gen_formats ->
-  fmt_ok f = true /\
-  ((forall i, wf_instr f i = true -> unstored_default f i = true -> alen i <= ISIZE_MAX ->
-              (is_ok (write_instr f i) = true <-> fitsb f i = true))
-   \/ (exists i, wf_instr f i = true /\ unstored_default f i = true /\ alen i <= ISIZE_MAX /\
-                 (exists bs, write_instr f i = Ok bs) /\ fitsb f i = false)).
+Theorem C03_generated_all_checked : forallb all_checked gen_formats = true.
+Proof. vm_compute. reflexivity. Qed.
+
+Theorem C03_no_silent_change_generated : forall f i, In f gen_formats ->
+  wf_instr f i = true -> unstored_default f i = true -> forced_default f i = true -> alen i <= ISIZE_MAX ->
+  (is_ok (write_instr f i) = true <-> fitsb f i = true).
 Proof.
-  assert (H : forallb status gen_formats = true) by (vm_compute; reflexivity).
-  intros f Hf. apply status_sound. rewrite forallb_forall in H. auto.
+  intros f i Hf. apply no_silent_change.
+  - assert (H := C03_generated_tables_ok). rewrite forallb_forall in H. auto.
+  - assert (H := C03_generated_all_checked). rewrite forallb_forall in H. auto.
+Qed.
+
+Theorem C03_instr_readback_generated : forall f i rest, In f gen_formats -> fitsb f i = true ->
+  exists bs, write_instr f i = Ok bs /\ bs <> [] /\ Z.of_nat (length bs) = instr_size f i /\
+             read_instr f (bs ++ rest) = Ok (kind_of f i, rest).
+Proof.
+  intros f i rest Hf. apply instr_readback.
+  assert (H := C03_generated_tables_ok). rewrite forallb_forall in H. auto.
 Qed.
 
 (* non-vacuity: an ordinary instruction fits every generated format (with 12 argument bytes and,
@@ -70,12 +80,12 @@ Example C03_fits_inhabited :
                                (i_diff (f_default f)) 0 0 0)) gen_formats = true.
 Proof. vm_compute. reflexivity. Qed.
 
-(* the all-checked premise of (3) is satisfiable: the ANM v2+ table with its narrowing fields checked
-   and read back with the type they are written as, and the end-marker opcode refused *)
-Definition anm_v2_checked : fmt := mkFmt 8
-  [W FOpcode U16 U16 AsCast; W FInstrSize U64 U16 Checked; W FTime I32 I16 Checked; W FMask U16 U16 AsCast]
-  [R FOpcode I16 U16; R FInstrSize U16 U64; R FTime I16 I32; R FMask U16 U16]
-  false ArgsBySizeChecked TTerminal 2 false [(FOpcode, 65535)]
-  [(I16, -1); (U16, 0); (U16, 0); (U16, 0)] true false false gen_default.
-Example C03_all_checked_inhabited : fmt_ok anm_v2_checked = true /\ all_checked anm_v2_checked = true.
-Proof. vm_compute. auto. Qed.
+(* the premises of (3)/(4) are satisfiable, and the iff is not vacuous: an out-of-range time label is
+   refused with a diagnostic and does not fit; the same instruction with an in-range time is written *)
+Example C03_no_silent_change_inhabited :
+  let bad := mkInstr 70000 3 0 [1; 2; 3; 4] 255 0 0 0 in
+  let good := mkInstr 700 3 0 [1; 2; 3; 4] 255 0 0 0 in
+  wf_instr gen_anm_v2 bad = true /\ unstored_default gen_anm_v2 bad = true /\ forced_default gen_anm_v2 bad = true /\
+  write_instr gen_anm_v2 bad = Err E_RANGE /\ fitsb gen_anm_v2 bad = false /\
+  is_ok (write_instr gen_anm_v2 good) = true /\ fitsb gen_anm_v2 good = true.
+Proof. vm_compute. repeat split; reflexivity. Qed.
